@@ -205,6 +205,11 @@ class NPShim(object):
             return r
         if a.ndim == 1 and b.ndim == 1:
             return (a[:, None] * b[None, :]).reshape(-1)
+        if a.ndim == b.ndim:
+            sa = [x for d_ in a.shape for x in (d_, 1)]
+            sb = [x for d_ in b.shape for x in (1, d_)]
+            r = a.reshape(sa) * b.reshape(sb)
+            return r.reshape([x * y for x, y in zip(a.shape, b.shape)])
         raise NotImplementedError('kron ndim %d %d' % (a.ndim, b.ndim))
 
     def einsum(self, spec, *ops, **kw):
